@@ -25,6 +25,7 @@ type GenOpts struct {
 	DLQFaults   bool // DLQ nack / stream error
 	StoreFaults bool
 	GateCommits bool
+	GateAcks    bool // the source plugin takes its acks at scheduler-chosen instants
 	Holds       bool // a destination or the DLQ stops answering at some record (first run only)
 
 	// DLQ window: if Unlimited the window never stops the pipeline.
@@ -101,6 +102,7 @@ func GenCase(t *rapid.T, o GenOpts) *Case {
 	c.Recovery = RecoverySpec{MinMs: 2, MaxMs: 8, Factor: 2, WindowMs: 60000,
 		MaxRetries: retries[rapid.IntRange(0, len(retries)-1).Draw(t, "retries")]}
 	c.GateCommits = o.GateCommits && chance(t, "gatecommits", 40)
+	c.GateSrcAcks = o.GateAcks && chance(t, "gateacks", 35)
 	c.GateCallbacks = o.GateCommits && chance(t, "gatecallbacks", 40)
 
 	nsrc := rapid.IntRange(1, max(1, o.MaxSources)).Draw(t, "nsrc")
@@ -259,6 +261,7 @@ func GenCase(t *rapid.T, o GenOpts) *Case {
 		di := rapid.IntRange(0, ndst-1).Draw(t, "errdest")
 		for _, k := range sparseKeys(t, "errkeys", nsrc, ns, 1) {
 			c.Dests[di].PerPiece[Key(k[0], k[1], 0)] = OutErr
+			c.Dests[di].ErrEOF = chance(t, "erreof", 40)
 		}
 	}
 
@@ -280,6 +283,7 @@ func GenCase(t *rapid.T, o GenOpts) *Case {
 	if o.DLQFaults && chance(t, "dlqfault", 35) {
 		for _, k := range sparseKeys(t, "dlqkeys", nsrc, ns, 2) {
 			c.DLQ.PerRecord[Key(k[0], k[1], 0)] = Outcome(pickStr(t, "dlqout", []string{string(OutNack), string(OutErr)}))
+			c.DLQ.ErrEOF = chance(t, "dlqerreof", 40)
 		}
 	}
 
